@@ -14,6 +14,7 @@ import (
 	"sort"
 	"strconv"
 	"strings"
+	"time"
 	"unicode"
 	"unicode/utf8"
 
@@ -252,6 +253,35 @@ func run(raw json.RawMessage) driver.Result {
 	switch in.K {
 	case "flt":
 		return runFloat(in)
+	case "dur":
+		out := guard(func() string {
+			v, err := parse.String(in.S, reflect.TypeOf(time.Duration(0)))
+			if err != nil {
+				return "(Err 0)"
+			}
+			return "(Ok " + zTerm(strconv.FormatInt(v.Elem().Int(), 10)) + ")"
+		})
+		return driver.Result{
+			Coq:  fmt.Sprintf("DurRaw %s %s", coqfmt.Str(in.S), out),
+			Kind: "duration-raw", Nontrivial: strings.HasPrefix(out, "(Ok"), Tags: []string{"duration-raw-" + cls(out)},
+		}
+	case "durrt":
+		z, err := strconv.ParseInt(in.S, 10, 64)
+		if err != nil {
+			panic("harness: bad duration value " + in.S)
+		}
+		str := time.Duration(z).String()
+		out := guard(func() string {
+			v, err := parse.String(str, reflect.TypeOf(time.Duration(0)))
+			if err != nil {
+				return "(Err 0)"
+			}
+			return "(Ok " + zTerm(strconv.FormatInt(v.Elem().Int(), 10)) + ")"
+		})
+		return driver.Result{
+			Coq:  fmt.Sprintf("DurRT %s %s %s", zTerm(in.S), coqfmt.Str(str), out),
+			Kind: "duration-roundtrip", Nontrivial: z != 0,
+		}
 	case "int":
 		out := parseScalar(in.Signed, in.W, in.S)
 		return driver.Result{
@@ -524,6 +554,21 @@ func sweep() []json.RawMessage {
 			add(input{K: "isrt", Signed: signed, W: w, Vals: []string{lo.String()}})
 		}
 	}
+	// durations: every unit boundary of Duration.String and the int64 edges, both signs
+	for _, v := range []string{"0", "1", "999", "1000", "1001", "999999", "1000000", "1500000", "999999999", "1000000000", "1000000001",
+		"59999999999", "60000000000", "3599999999999", "3600000000000", "3600000000001", "9223372036854775806", "9223372036854775807",
+		"123456789", "1234567", "1234", "100", "10", "1000000000000", "86400000000000", "9223372036000000000", "9223372036854000000"} {
+		add(input{K: "durrt", S: v})
+		if v != "0" {
+			add(input{K: "durrt", S: "-" + v})
+		}
+	}
+	add(input{K: "durrt", S: "-9223372036854775808"})
+	for _, s := range []string{"9223372036854775808ns9223372036854775808ns", "-9223372036854775808ns9223372036854775808ns1ns",
+		"4611686018427387904ns4611686018427387904ns", "-4611686018427387904ns4611686018427387904ns", "2562047h47m16.854775808s",
+		"-2562047h47m16.854775808s", "1µs", "1μs", "1us", "1.5h", ".5s", "1.s", "", "0", "+0", "1", "1h1h", "0.3333333333333333333h"} {
+		add(input{K: "dur", S: s})
+	}
 	// the findings of DESIGN 7 (9, 10, 11) as fixed regression inputs
 	add(input{K: "map", M: [][2]string{{"", "x"}}})
 	add(input{K: "map", M: [][2]string{{"", ""}, {"a", "b"}}})
@@ -594,7 +639,7 @@ func genLiteral(r *coqfmt.Rng, signed bool, w int) string {
 	return lit
 }
 
-var tyPool = []string{"sl:str", "sl:str", "set", "set", "map:str:str", "map:str:str", "mss", "mss",
+var tyPool = []string{"dur", "sl:dur", "map:str:dur", "map:dur:bool", "sl:str", "sl:str", "set", "set", "map:str:str", "map:str:str", "mss", "mss",
 	"sl:i8", "sl:u16", "sl:bool", "sl:sl:str", "map:i16:bool", "map:str:u8", "map:bool:str", "bool", "str",
 	"i32", "u64", "uptr", "other", "sl:other", "map:str:other", "map:other:str", "sl:set", "sl:map:str:str"}
 
@@ -608,7 +653,18 @@ func gen(r *coqfmt.Rng, n int, tier string) []json.RawMessage {
 	for i := 0; i < n; i++ {
 		signed := r.Chance(1, 2)
 		w := r.Intn(5)
-		switch x := r.Intn(112); {
+		switch x := r.Intn(124); {
+		case x >= 118:
+			v := int64(r.U64() >> uint(r.Intn(64)))
+			if r.Chance(1, 2) {
+				v = -v
+			}
+			if r.Chance(1, 4) {
+				v = v / 1000000 * 1000000 // whole milliseconds and more: short fractions
+			}
+			add(input{K: "durrt", S: strconv.FormatInt(v, 10)})
+		case x >= 112:
+			add(input{K: "dur", S: tg.DurationText()})
 		case x >= 100:
 			add(genFloatCase(r))
 		case x < 22:
@@ -687,6 +743,8 @@ func main() {
 			"(non-trivial: >=2 members and at least one member containing a special rune); raw text through parse.String at 26 types " +
 			"(non-trivial: parsed successfully, length >= 3); float32/float64/complex64/complex128 boundary sweep and random literals, " +
 			"scalar, slice element, map value, parse.Complex*, flag helper Set - DIRECT ORACLE against strconv at the target bit size, no model (non-trivial: accepted); " +
+			"durations: nanosecond counts (every unit boundary of Duration.String, int64 edges, random) through Duration.String and back, and duration texts " +
+			"(terms around the int64 edges, all unit spellings, long fractions, malformed) through parse.String at time.Duration (non-trivial: accepted / non-zero); " +
 			"distinct = distinct JSON inputs",
 		Gen: gen, Run: run, Corpus: append(sweep(), floatSweep()...),
 	})
